@@ -35,13 +35,17 @@ def main():
     lib_src = open(lib).read()
     demo_src = open(os.path.join(out, "demo.rs")).read()
     open(os.path.join(wt, f"src/{mod}.rs"), "w").write(demo_src)
-    open(lib, "w").write(lib_src + f"\n#[cfg(test)]\nmod {mod};\n")
-    rc, o = sh(f"cargo test --offline --lib {mod} 2>&1 | grep -E '^test result|panicked|error(\\[|:)' | head -8", wt)
+    verif_cfg = "mrecordlog_verif" in demo_cmd
+    gate = "#[cfg(all(test, mrecordlog_verif))]" if verif_cfg else "#[cfg(test)]"
+    open(lib, "w").write(lib_src + f"\n{gate}\n#[allow(non_snake_case)]\nmod {mod};\n")
+    cargo = f'RUSTFLAGS="--cfg mrecordlog_verif" cargo test --offline --lib --target-dir {wt}/target/verif' if verif_cfg else "cargo test --offline --lib"
+    res["demo_needs_verif_cfg"] = verif_cfg
+    rc, o = sh(f"{cargo} {mod} 2>&1 | grep -E '^test result|panicked|error(\\[|:)' | head -8", wt)
     res["demo_with_change"] = o.strip()[-600:]
-    with_fails = bool(re.search(r"test result: FAILED", o)) and not re.search(r"error(\[|:)", o.split("test result")[0] if "test result" in o else o)
+    with_fails = bool(re.search(r"test result: FAILED", o)) and not re.search(r"error\[E|could not compile", o)
     # without the change
     sh(f"git apply -R {out}/patch.diff", wt)
-    rc, o = sh(f"cargo test --offline --lib {mod} 2>&1 | grep -E '^test result|panicked|error(\\[|:)' | head -8", wt)
+    rc, o = sh(f"{cargo} {mod} 2>&1 | grep -E '^test result|panicked|error(\\[|:)' | head -8", wt)
     res["demo_without_change"] = o.strip()[-400:]
     without_passes = bool(re.search(r"test result: ok\. [1-9]\d* passed; 0 failed", o))
     sh("git checkout -- . && git clean -fdq src", wt)
